@@ -134,10 +134,17 @@ fn main() {
         let n = constructors(&ctx);
         fam_info.push(json!({"family": "constructors", "cases": n, "what": "Writer::new(buf, limit) and TryFrom for buffer sizes 0..=14, 512, 65535 x limits none, 0..=14, 512, 65535, 70000, usize::MAX"}));
     }
+    // Safety net for an overloaded machine: shards not started before the cap
+    // are skipped and the run is reported as capped (never as exhaustive).
+    let wall_cap_s: f64 = std::env::var("QVERIF_WALL_CAP_S").ok().and_then(|s| s.parse().ok()).unwrap_or(ctx.pick(55.0, 285.0));
+    let mut capped: Vec<String> = Vec::new();
     for fam in &fams {
         let t0 = ctx.elapsed_s();
         let before = cnt.histories.load(Ordering::Relaxed);
-        explore_family(&ctx, prop, fam, &cnt, &found);
+        let (skipped, shards) = explore_family(&ctx, prop, fam, &cnt, &found, wall_cap_s);
+        if skipped > 0 {
+            capped.push(format!("{}: {skipped} of {shards} shards skipped", fam.name));
+        }
         let n = cnt.histories.load(Ordering::Relaxed) - before;
         let size = family_size(fam);
         expected_total += size;
@@ -149,6 +156,7 @@ fn main() {
             "configurations": fam.configs.len(),
             "histories_in_space": size,
             "histories_evaluated": n,
+            "complete": skipped == 0,
             "wall_s": ((ctx.elapsed_s() - t0) * 100.0).round() / 100.0,
         }));
         eprintln!("[{}] family {}: {} histories ({} in space), {:.1}s", ctx.id, fam.name, n, size, ctx.elapsed_s() - t0);
@@ -169,9 +177,15 @@ fn main() {
     if prop == Prop::C13 {
         ctx.set_extra("pointers_checked", json!(cnt.pointers.load(Ordering::Relaxed)));
         ctx.set_extra("histories_with_pointers", json!(cnt.histories_with_pointer.load(Ordering::Relaxed)));
+        ctx.set_extra("pointers_with_target_above_255", json!(cnt.high_targets.load(Ordering::Relaxed)));
+        ctx.set_extra("highest_pointer_target", json!(cnt.max_target.load(Ordering::Relaxed)));
+    }
+    if !capped.is_empty() {
+        ctx.mark_capped(&format!("wall-clock cap of {wall_cap_s} s reached (overloaded machine?): {}", capped.join("; ")));
+        eprintln!("[{}] CAPPED: {}", ctx.id, capped.join("; "));
     }
     let complete = histories == expected_total;
-    if !complete && pruned == 0 {
+    if !complete && pruned == 0 && capped.is_empty() {
         eprintln!("MACHINERY: evaluated {histories} histories, the space has {expected_total}");
         std::process::exit(3);
     }
